@@ -254,7 +254,8 @@ UF_EXTERNALS = {"sinf": ("sin", 1), "cosf": ("cos", 1), "tanf": ("tan", 1), "aco
 
 
 class Machine:
-    def __init__(self, mod, in_elem=4, max_paths=64, max_steps=200000):
+    def __init__(self, mod, in_elem=4, max_paths=64, max_steps=200000, opaque=False):
+        self.opaque = opaque      # mode U: integer / bit-level operations on symbolic lanes become uninterpreted terms instead of NotEncoded
         self.mod = mod
         self.in_elem = in_elem
         self.max_paths = max_paths
@@ -472,6 +473,13 @@ class Machine:
     def fbin(self, op, a, b):
         if a is POISON or b is POISON:
             return POISON
+        if a.t[0] == "c" and b.t[0] == "c" and op in ("fadd", "fsub", "fmul"):
+            # constant lanes of a vector operation (e.g. 0.0 - 0.0 in a padded lane): fold when the result is exact in the lane's format
+            x, y = a.t[1], b.t[1]
+            r = x + y if op == "fadd" else (x - y if op == "fsub" else x * y)
+            rf = float(r)
+            if Fraction(rf) == r and (a.w == 64 or Fraction(struct.unpack("<f", struct.pack("<f", rf))[0]) == r):
+                return F(T("c", r), a.w)
         return F(T(op, a.t, b.t), a.w)
 
     def lanes2(self, ty, a, b, f):
@@ -567,7 +575,26 @@ class Machine:
             c = int_bits_to_float(sb.v, bits)
             if c >= 0:
                 return SI("bits", T("copysign", const_term(c), sa.t), bits)
+        if self.opaque:
+            return SI("bits", T("iop_" + op, self.as_term(a), self.as_term(b), bits), bits)
         raise NotEncoded(f"integer op {op} on {a} , {b}")
+
+    def as_term(self, v):
+        if isinstance(v, I):
+            return T("ci", v.v, v.bits)
+        if isinstance(v, F):
+            return v.t
+        if isinstance(v, SI):
+            return v.t if v.kind == "bits" else T("si_" + v.kind, v.t if isinstance(v.t, tuple) and v.t and isinstance(v.t[0], str) else T("k", repr(v.t)))
+        if isinstance(v, C):
+            return T("cond", v.c)
+        if isinstance(v, tuple) and v and v[0] in ("fptoi", "cint"):
+            return T(v[0], v[1])
+        if isinstance(v, tuple) and v and v[0] == "blob":
+            return T("blob", *[self.as_term(x) for x in v[1]])
+        if v is POISON:
+            return T("poison")
+        raise NotEncoded("as_term " + repr(v))
 
     # -- execution ----------------------------------------------------------------------------
     def run_kernel(self, fname, n_out_hint=None):
@@ -781,6 +808,9 @@ class Machine:
                         return a if self.decide(c.c) else b
                     if isinstance(a, SI) and isinstance(b, SI) and a.kind == "bits" and b.kind == "bits":
                         return SI("bits", T("ite", c.c, a.t, b.t), a.bits)
+                if self.opaque and isinstance(c, C):
+                    bits = getattr(a, "bits", getattr(b, "bits", 32))
+                    return SI("bits", T("ite", c.c, self.as_term(a), self.as_term(b)), bits)
                 raise NotEncoded(f"select {c} ? {a} : {b}")
             if vec_type(ty):
                 n = vec_type(ty)[0]
@@ -827,6 +857,8 @@ class Machine:
                         return C(T("fcmp", "olt", x.t, ZERO))     # sign-bit test (ignores -0 / NaN sign)
                     if pred == "sgt" and y.s() == -1:
                         return C(T("fcmp", "oge", x.t, ZERO))
+                if self.opaque:
+                    return C(T("icmp", pred, self.as_term(x), self.as_term(y)))
                 raise NotEncoded(f"icmp {pred} {x} {y}")
             return self.lanes2(ty, va, vb, icmp)
         if op in ("zext", "sext", "trunc", "bitcast", "fpext", "fptrunc", "sitofp", "uitofp", "fptosi", "fptoui", "ptrtoint", "inttoptr", "freeze"):
@@ -926,6 +958,8 @@ class Machine:
                 if b // 8 == ls:
                     x = lanes[0]
                     return SI("bits", x.t, b) if isinstance(x, F) else x
+            if self.opaque:
+                return SI("bits", T("cast_" + op, self.as_term(v), b), b)
             raise NotEncoded(f"{op} of {v}")
         if op == "bitcast":
             sv, dv = vec_type(sty), vec_type(dty)
@@ -988,6 +1022,8 @@ class Machine:
                 return F(T("ite", v.t, const_term(Fraction(-1)), ZERO), w)
             if isinstance(v, tuple) and v[0] == "fptoi":
                 return F(T("trunc", v[1]), w)     # (x as i32) as f32, |x| < 2^31 assumed by the kernel's own range guard
+            if self.opaque:
+                return F(T("cast_" + op, self.as_term(v)), w)
             raise NotEncoded(f"{op} of {v}")
         if op in ("fptosi", "fptoui"):
             return ("fptoi", v.t, int(dty[1:]))
@@ -1059,6 +1095,8 @@ class Machine:
         if n1 == "fma":
             return lanewise(lambda x, y, z: F(T("fma", x.t, y.t, z.t), x.w), vals[0], vals[1], vals[2])
         if n1 == "fmuladd":
+            if self.opaque:
+                return lanewise(lambda x, y, z: F(T("fmuladd", x.t, y.t, z.t), x.w), vals[0], vals[1], vals[2])
             raise NotEncoded("llvm.fmuladd (contraction allowed)")
         if n1 == "memcpy" or n1 == "memmove":
             d, s, n = vals[0], vals[1], vals[2]
@@ -1076,6 +1114,25 @@ class Machine:
                     del m[o]
             self.zero.setdefault(d.obj, []).append((d.off, d.off + n.v))
             return None
+        if n1 == "masked" and base[2] in ("load", "store"):
+            # AVX2 builds use masked vector loads/stores with constant masks
+            if base[2] == "load":
+                p, mask, pas = (vals[0], vals[1], vals[2]) if len(vals) == 3 else (vals[0], vals[2], vals[3])
+                vt = vec_type(rty)
+                es = type_size(vt[1])
+                pas = pas if pas is not POISON else [POISON] * vt[0]
+                return [self.load(vt[1], P(p.obj, p.off + k * es)) if (isinstance(mask[k], I) and mask[k].v) else pas[k] for k in range(vt[0])]
+            val, p, mask = (vals[0], vals[1], vals[2]) if len(vals) == 3 else (vals[0], vals[1], vals[3])
+            vt = vec_type(args[0][0])
+            es = type_size(vt[1])
+            for k in range(vt[0]):
+                if not isinstance(mask[k], I):
+                    raise NotEncoded("masked store with symbolic mask")
+                if mask[k].v:
+                    self.store(vt[1], val[k], P(p.obj, p.off + k * es))
+            return None
+        if n1 == "is" and self.opaque:
+            return lanewise(lambda x: C(T("fpclass", x.t, vals[1].v)), vals[0])
         if n1 == "x86":
             return self.x86(name, vals, aty)
         if n1 in ("abs", "smax", "smin", "umax", "umin", "ctpop", "ctlz", "cttz", "bswap", "fshl", "fshr", "usub", "uadd", "sadd", "ssub"):
@@ -1118,6 +1175,8 @@ class Machine:
                 return [SI("mask", T("true"), 32)] * 4
             return lw(lambda x, y: SI("mask", T("fcmp", p, x.t, y.t), 32), vals[0], vals[1])
         if name == "llvm.x86.sse.movmsk.ps":
+            if self.opaque:
+                return SI("bits", T("movmsk", *[self.as_term(x) for x in vals[0]]), 32)
             raise NotEncoded("movmskps on symbolic lanes")
         if name in ("llvm.x86.sse.sqrt.ps",):
             return [F(T("sqrt", x.t), 32) for x in vals[0]]
